@@ -13,7 +13,9 @@ CONSTANTS
   Ranges = {40, 29}
   Offsets = {0}
   UseSTs = {TRUE}
+  Steps = {0}
+  NSteps = 1
   BuildMode = FALSE
   EmitOn = FALSE
-INVARIANTS TypeOK ImplMatchesRef IncrementsLaw NonNegative IncreaseIsRateTimesRange NoResetIncreaseIsDelta FactorBounded CountsBounded OffsetLaw Emit
+INVARIANTS TypeOK ImplMatchesRef WindowReuse IncrementsLaw NonNegative IncreaseIsRateTimesRange NoResetIncreaseIsDelta FactorBounded CountsBounded OffsetLaw Emit
 CHECK_DEADLOCK FALSE
